@@ -322,7 +322,7 @@ PROPS["C10"] = {
         "C10.sibling_gap_through_empty_boxes", "C10.collapse_two_margins", "C10.sibling_gap_two_margins",
         "C10.block_collapse_sound", "C10.leaf_collapse_sound",
     ],
-    "harness": "C10", "driver": "C10", "monitor": True,
+    "harness": "C10", "driver": "C10", "monitor": True, "extra_ties": [("EVAL", "EVAL")], "extra_tie_cases": 4000,
     "rule": "block containers with 1-5 children (empty boxes, leaves with Fixed/Wrap measure contexts, nested block / flex / grid "
             "subtrees, display:none and absolutely positioned children; margins from {-20,-8,-5,0,2.5,5,10,20,auto,+-12.5%,25%}, "
             "fixed / percentage / content heights, percentage and fixed padding/border, overflow, text-align, relative insets, "
@@ -380,7 +380,7 @@ PROPS["C11"] = {
         "C11.blockReported_of_length_border",
         "C11.block_monitor_sound", "C11.flex_monitor_sound", "C11.grid_monitor_sound",
     ],
-    "harness": "C11", "driver": "C11", "monitor": True,
+    "harness": "C11", "driver": "C11", "monitor": True, "extra_ties": [("EVAL", "EVAL"), ("FLEX", "FLEX")], "extra_tie_cases": 4000,
     "rule": "a real tree per case: container (block/flex/grid round-robin; size mostly definite lengths, sometimes auto/percent; "
             "random padding, border (occasionally percent), overflow incl. scroll on either axis, scrollbar width 0/4/7.5/15, "
             "box-sizing, min/max, all four flex directions, wrap-reverse, every justify/align value; grid without explicit tracks) "
@@ -435,7 +435,7 @@ PROPS["C19"] = {
         "C19.measure_only_childless_boxes", "C19.dispatch_childless", "C19.no_measure_when_hidden", "C19.display_none_root",
         "C19.size_floor", "C19.min_wins_width", "C19.min_wins_height",
     ],
-    "harness": "C19", "driver": "C19", "monitor": True,
+    "harness": "C19", "driver": "C19", "monitor": True, "extra_ties": [("EVAL", "EVAL")], "extra_tie_cases": 4000,
     "rule": "three streams. (1) leaf: random single-node styles (display block|flex|grid|none; size/min/max each auto|length|percent "
             "over a colliding pool; aspect ratio; padding/border length|percent; margins incl. auto and negative; overflow all four x "
             "scrollbar width; box-sizing; position) x node context (none|fixed|wrapping text) x available space "
@@ -492,7 +492,7 @@ PROPS["C07"] = {
         "C07.flexibility_exhausted", "C07.flexibility_exhausted_total",
         "C03Flex.iteration_freezes_one", "C03Flex.iteration_freezes_all_when_zero", "C03Flex.freeze_loop_terminates",
     ],
-    "harness": "C07", "driver": "C07", "monitor": True,
+    "harness": "C07", "driver": "C07", "monitor": True, "extra_ties": [("FLEX", "FLEX")], "extra_tie_cases": 4000,
     "rule": "per case one flex line of 0..6 synthetic items driven through the REAL private functions "
             "resolve_flexible_lengths -> distribute_remaining_free_space -> calculate_layout_line (cfg(taffy_verif) hooks that "
             "build real FlexItem/FlexLine/AlgoConstants values), chained as compute_preliminary chains them: 4/5 well-formed items "
@@ -604,7 +604,7 @@ _PAIRS_TRUSTED = [
 
 PROPS["C01"] = {
     "modules": C01_EVAL_MODULES + EVALBLOCK_MODULES + ["TaffyVerif.Props.C15", "TaffyVerif.Props.C15Pass"], "theorems": C01_EVAL_THEOREMS + EVALBLOCK_C01 + ["C15.step_preserves_K", "C15.I_reachable", "C15Pass.pass_cleans"],  # PLACEHOLDER — C01's theorems (stamp_valid, transparency under HitAfterQuiet, …) to be added
-    "harness": "C01", "driver": "C01", "monitor": False, "extra_ties": [("EVAL", "EVAL")], "harness_timeout": 900,
+    "harness": "C01", "driver": "C01", "monitor": False, "extra_ties": [("EVAL", "EVAL"), ("FLEX", "FLEX")], "extra_tie_cases": 4000, "harness_timeout": 900,
     "rule": "random histories (5-25 ops) on ONE long-lived TaffyTree<Ctx> next to a mirror description: set_style (fresh / identical / "
             "display:none toggle), set_node_context, add_child / insert_child_at_index / replace_child_at_index with a newly generated or a "
             "detached subtree, remove_child_at_index, remove_children_range (in range), set_children (permutation / reparenting; no cycles), "
@@ -635,7 +635,7 @@ PROPS["C01"] = {
 
 PROPS["C16"] = {
     "modules": C16_EVAL_MODULES + EVALBLOCK_MODULES, "theorems": C16_EVAL_THEOREMS + EVALBLOCK_C16,  # PLACEHOLDER — C16's theorems (body_evals_le_distinct_keys, queries_per_invocation, chain_const) to be added
-    "harness": "C16", "driver": "C16", "monitor": False, "harness_timeout": 900,
+    "harness": "C16", "driver": "C16", "monitor": False, "harness_timeout": 900, "extra_ties": [("EVAL", "EVAL"), ("FLEX", "FLEX")], "extra_tie_cases": 4000,
     "rule": "fresh trees, one compute_layout pass each: (i) 3000 random mixes (all displays, hidden/absolute nodes, Fixed and Wrap leaves) with "
             "up to 40/150/300 nodes, depth up to 12, up to 10 children; (ii) single-child chain families (same level styles cycled, depth "
             "1..64): every container kind and five mixed cycles x nine sizing variants x four available spaces x Fixed/Wrap leaf, plus 300 "
@@ -659,7 +659,7 @@ PROPS["C16"] = {
 
 PROPS["C17"] = {
     "modules": C17_MODULES, "theorems": C17_THEOREMS,  # PLACEHOLDER — C17's theorems (dispatch_eq, drivers_eq) to be added
-    "harness": "C17", "driver": "C17", "monitor": False, "extra_ties": [("EVAL", "EVAL")], "harness_timeout": 900,
+    "harness": "C17", "driver": "C17", "monitor": False, "extra_ties": [("EVAL", "EVAL"), ("FLEX", "FLEX")], "extra_tie_cases": 4000, "harness_timeout": 900,
     "rule": "12 000 generated trees (full observation lines for the first 4000 and for every differing case) (60% up to 12 nodes / depth 3, 40% up to 40 nodes / depth 6; flex/grid/block/none, Fixed/Wrap/no measure "
             "data), random available space, rounding on or off. Each is laid out by TaffyTree::compute_layout_with_measure and by an "
             "independent Vec-backed tree (harness/src/hist.rs VTree) that implements TraversePartialTree, TraverseTree, LayoutPartialTree, "
@@ -685,7 +685,7 @@ PROPS["C17"] = {
 
 PROPS["C04"] = {
     "modules": ['TaffyVerif.Props.C04'], "theorems": ['C04.num_homogeneous', 'C04.resolve_homogeneous', 'C04.aspect_ratio_homogeneous', 'C04.clamp_homogeneous', 'C04.margin_set_homogeneous', 'C04.measure_homogeneous', 'C04.leaf_homogeneous', 'C04.leaf_homogeneous_ctx', 'C04.root_homogeneous', 'C04.abs_homogeneous', 'C04.abs_call_sites_homogeneous', 'C04.flex_line_homogeneous', 'C04.block_homogeneous', 'C04.flow_loop_homogeneous', 'C04.place_item_homogeneous', 'C04.tree_homogeneous', 'C04.tree_homogeneous_fresh', 'C04.tree_homogeneous_evalNode', 'C04.leafAlg_homogeneous', 'C04.algs_homogeneous_concrete', 'C04.tree_homogeneous_concrete', 'C04.cache_roughly_equal_homogeneous', 'C04.cache_roughly_equal_not_homogeneous'],
-    "harness": "C04", "driver": "C04", "monitor": False, "extra_ties": [("EVAL", "EVAL")],
+    "harness": "C04", "driver": "C04", "monitor": False, "extra_ties": [("EVAL", "EVAL"), ("FLEX", "FLEX")], "extra_tie_cases": 4000,
     "rule": "style trees of 1-12 nodes, depth <= 4, flex/grid/block mixed (treegen::gen_tree with every feature on: hidden, "
             "absolute, percentages, aspect ratios, content-box, auto/negative margins, scroll containers, wrap/fixed measure "
             "contexts, grid lines) plus extra grid tracks (fit-content(px/%), minmax(px, px|auto|max-content), auto-fill/auto-fit) "
@@ -720,7 +720,7 @@ PROPS["C04"] = {
 
 PROPS["C12"] = {
     "modules": ['TaffyVerif.Props.C12'], "theorems": ['C12.core_arith', 'C12.adjustment_context_free', 'C12.core_site_shape', 'C12.core_flex_basis', 'C12.isAuto_invariant', 'C12.leaf_site_equiv', 'C12.root_site_equiv', 'C12.single_leaf_equiv', 'C12.abs_site_equiv_block', 'C12.abs_site_equiv_flex', 'C12.abs_site_equiv_grid', 'C12.abs_call_sites_equiv', 'C12.block_container_site_equiv', 'C12.block_item_site_equiv', 'C12.tree_equiv', 'C12.tree_equiv_init', 'C12.tree_equiv_root', 'C12.leafAlg_blind', 'C12.block_blind', 'C12.boxBlind_modelled', 'C12.tree_equiv_modelled', 'C12.tree_equiv_block_only', 'C12.grid_compressible_cap_site_not_equiv', 'C12.grid_compressible_cap_repaired_equiv'],
-    "harness": "C12", "driver": "C12", "monitor": False, "extra_ties": [("EVAL", "EVAL")],
+    "harness": "C12", "driver": "C12", "monitor": False, "extra_ties": [("EVAL", "EVAL"), ("FLEX", "FLEX")], "extra_tie_cases": 4000,
     "rule": "style trees of 1-12 nodes as for C04 in which half of the nodes are made content-box with length-valued padding/border "
             "(multiples of 1/4, mostly non-zero), no aspect ratio, percentages in size/min/max/flex-basis replaced by lengths or auto, "
             "extra definite lengths (other content-box nodes from the base generator stay ineligible: percentage padding, aspect "
@@ -741,7 +741,7 @@ PROPS["C12"] = {
 
 PROPS["C05"] = {
     "modules": C05_EVAL_MODULES + C17_MODULES + EVALBLOCK_MODULES, "theorems": C05_EVAL_THEOREMS + ["C17.dispatch_eq"] + EVALBLOCK_C05,
-    "harness": "C05", "driver": "C05", "monitor": False, "extra_ties": [("EVAL", "EVAL")],
+    "harness": "C05", "driver": "C05", "monitor": False, "extra_ties": [("EVAL", "EVAL"), ("FLEX", "FLEX")], "extra_tie_cases": 4000,
     "rule": "style trees of 2-12 nodes as for C04, with 1-3 extra non-root nodes forced to display:none (keeping their subtrees, "
             "half of them with explicit grid-row/grid-column lines -5..6 / spans, some absolute, some with sizes and margins); for "
             "EVERY non-root display:none node h: tree B = A with h's subtree replaced by a bare Style{display:None,..DEFAULT} leaf. "
@@ -761,7 +761,7 @@ PROPS["C05"] = {
 
 PROPS["C06"] = {
     "modules": C06_EVAL_MODULES + EVALBLOCK_MODULES, "theorems": C06_EVAL_THEOREMS + EVALBLOCK_C06,
-    "harness": "C06", "driver": "C06", "monitor": False, "extra_ties": [("EVAL", "EVAL")],
+    "harness": "C06", "driver": "C06", "monitor": False, "extra_ties": [("EVAL", "EVAL"), ("FLEX", "FLEX")], "extra_tie_cases": 4000,
     "rule": "style trees of 2-12 nodes as for C04, with 1-3 extra non-root nodes forced to position:absolute (random insets incl. "
             "percentages and negatives, a quarter with explicit grid lines, a quarter with auto lines, a third with large sizes); for "
             "EVERY non-root absolute node a with display != none: tree B = A with a's subtree replaced by a bare "
